@@ -122,9 +122,10 @@ for _kind in ("dict", "empty", "text", "context", "bad"):
 CONTRACTS.append(Contract(
     "_CryptConfig._norm_scheme_option[salt]", f"{CTX}::_CryptConfig._norm_scheme_option",
     params={"self": Obj(), "key": Const("salt"), "value": Union(Str(), __import__("pyvc.contract", fromlist=["Bytes"]).Bytes(), Int(), NoneT())},
+    globals={"_coerce_scheme_options": SDict({})},
     raises={"KeyError": None},
     ensures=[("a 'salt' option is never accepted", "False")],
-    descr="value of any type (str, bytes, int, None)",
+    descr="value of any type (str, bytes, int, None), incl. empty / zero values",
 ))
 CONTRACTS.append(Contract(
     "_CryptConfig._norm_scheme_option[other keys]", f"{CTX}::_CryptConfig._norm_scheme_option",
